@@ -1,6 +1,8 @@
 (* model + spec side of the C10 correspondence: same case file as the Rust
    harness (harness/src/bin/c10.rs), one line per case:
-     "<verdict> size=<n> <hex of the bytes written> | wire=<reference decoder on these bytes> exp=<expected view or ->"
+     "<verdict> size=<n> <hex of the bytes written> | wire=<reference decoder on these bytes> exp=<expected view or ->
+      upto=<ok|DIFF|-> ts=<ok|DIFF|-> dec=<ok|DIFF|->"   (instances of C10_parse_back_upto_transport,
+      C10_timestamp_wrong_size_rejected, C10_icmp4/6_value_back evaluated on the extracted definitions)
    Case:  b <link> <vlan> <net> <transport> <payload>      (see tools/props/c10.py) *)
 open M_c10
 (*INCLUDE pfmt.ml.in*)
@@ -127,13 +129,59 @@ let net_of (t : string) : net_cfg =
      | _ -> failwith "arp fields")
   | _ -> failwith "net"
 
-let icmp_of (t : string) : icmp_kind =
+(* ICMP tokens (tools/props/c10.py): raw u.<type>.<code>.<bytes5to8>, echo q|p|Q|P.<id>.<seq>, and the
+   typed kinds field by field *)
+let b4_of (h : string) : n * n * n * n =
+  match bytes_of_hex h with [a; b; c; d] -> (a, b, c, d) | _ -> failwith "4 bytes"
+let nth_of l i = List.nth l (int_of_string i)
+
+let icmp4_of (t : string) : icmpv4Type =
   match split '.' t with
-  | ["u"; ty; code; b] -> IcUnknown (n_of_s ty, n_of_s code, bytes_of_hex b)
-  | ["q"; id; seq] | ["Q"; id; seq] -> IcEchoRequest (n_of_s id, n_of_s seq)
-  | ["p"; id; seq] | ["P"; id; seq] -> IcEchoReply (n_of_s id, n_of_s seq)
+  | ["u"; ty; code; b] -> let (a, b, c, d) = b4_of b in V4Unknown (n_of_s ty, n_of_s code, a, b, c, d)
+  | ["q"; id; seq] | ["Q"; id; seq] -> V4EchoRequest (n_of_s id, n_of_s seq)
+  | ["p"; id; seq] | ["P"; id; seq] -> V4EchoReply (n_of_s id, n_of_s seq)
+  | ["du"; code; mtu] ->
+    V4DestinationUnreachable
+      (nth_of [DuNetwork; DuHost; DuProtocol; DuPort; DuFragmentationNeeded (n_of_s mtu); DuSourceRouteFailed;
+               DuNetworkUnknown; DuHostUnknown; DuIsolated; DuNetworkProhibited; DuHostProhibited; DuTosNetwork;
+               DuTosHost; DuFilterProhibited; DuHostPrecedenceViolation; DuPrecedenceCutoff] code)
+  | ["rd"; code; gw] ->
+    let (a, b, c, d) = b4_of gw in
+    V4Redirect (nth_of [RedirectForNetwork; RedirectForHost; RedirectForTypeOfServiceAndNetwork;
+                        RedirectForTypeOfServiceAndHost] code, a, b, c, d)
+  | ["te"; code] -> V4TimeExceeded (nth_of [TtlExceededInTransit; FragmentReassemblyTimeExceeded4] code)
+  | ["pp"; code; ptr] ->
+    V4ParameterProblem (nth_of [PointerIndicatesError (n_of_s ptr); MissingRequiredOption; BadLength] code)
+  | [("tq" | "tp") as k; id; seq; o; r; x] ->
+    let m = { ts_id = n_of_s id; ts_seq = n_of_s seq; ts_originate = n_of_s o; ts_receive = n_of_s r;
+              ts_transmit = n_of_s x } in
+    if k = "tq" then V4TimestampRequest m else V4TimestampReply m
   | "x" :: _ -> raise Unmodelled
-  | _ -> failwith "icmp"
+  | _ -> failwith "icmp4"
+
+let icmp6_of (t : string) : icmpv6Type =
+  match split '.' t with
+  | ["u"; ty; code; b] -> let (a, b, c, d) = b4_of b in V6Unknown (n_of_s ty, n_of_s code, a, b, c, d)
+  | ["q"; id; seq] | ["Q"; id; seq] -> V6EchoRequest (n_of_s id, n_of_s seq)
+  | ["p"; id; seq] | ["P"; id; seq] -> V6EchoReply (n_of_s id, n_of_s seq)
+  | ["du"; code] ->
+    V6DestinationUnreachable
+      (nth_of [NoRoute; Prohibited; BeyondScope; Address6; Port6; SourceAddressFailedPolicy; RejectRoute] code)
+  | ["tb"; mtu] -> V6PacketTooBig (n_of_s mtu)
+  | ["te"; code] -> V6TimeExceeded (nth_of [HopLimitExceeded; FragmentReassemblyTimeExceeded6] code)
+  | ["pp"; code; ptr] ->
+    V6ParameterProblem
+      (nth_of [ErroneousHeaderField; UnrecognizedNextHeader; UnrecognizedIpv6Option;
+               Ipv6FirstFragmentIncompleteHeaderChain; SrUpperLayerHeaderError;
+               UnrecognizedNextHeaderByIntermediateNode; ExtensionHeaderTooBig; ExtensionHeaderChainTooLong;
+               TooManyExtensionHeaders; TooManyOptionsInExtensionHeader; OptionTooBig] code, n_of_s ptr)
+  | ["rs"] -> V6RouterSolicitation
+  | ["ra"; chl; m; o; lt] -> V6RouterAdvertisement (n_of_s chl, b_of m, b_of o, n_of_s lt)
+  | ["ns"] -> V6NeighborSolicitation
+  | ["na"; r; sl; o] -> V6NeighborAdvertisement (b_of r, b_of sl, b_of o)
+  | ["rd"] -> V6Redirect
+  | "x" :: _ -> raise Unmodelled
+  | _ -> failwith "icmp6"
 
 let tr_of (t : string) : transport_cfg =
   match split '/' t with
@@ -154,8 +202,8 @@ let tr_of (t : string) : transport_cfg =
                window_size = n_of_s win; checksum = n_of_s ck; urgent_pointer = n_of_s urgp;
                options = { o_len = n_of_int ol; o_buf = o @ zeros (40 - ol) } }
      | _ -> failwith "tcp fields")
-  | ["i4"; k] -> TrIcmpv4 (icmp_of k)
-  | ["i6"; k] -> TrIcmpv6 (icmp_of k)
+  | ["i4"; k] -> TrIcmpv4 (icmp4_of k)
+  | ["i6"; k] -> TrIcmpv6 (icmp6_of k)
   | _ -> failwith "transport"
 
 let vt_s = function
@@ -196,13 +244,43 @@ let run (line : string) : string =
              | LkNone -> wire_from_ip bs in
            (* blanks inside the view are replaced so that the spec column stays two tokens *)
            let us s = String.concat "_" (split ' ' s) in
-           Printf.sprintf "wire=%s exp=%s" (us (vres w))
+           let is_arp = (match c.c_net with NtArp _ -> true | _ -> false) in
+           let offt = off_transport c in
+           let seg = drop offt bs in
+           (* C10_parse_back_upto_transport: decoder = its transport stage behind the configured layers *)
+           let upto =
+             if is_arp || not (chain_ok c) then "-"
+             else if w = wire_transport bs (upto_net c plen) (tr_ip_number c.c_transport) (is_fragmented_x c)
+                       (ip_len_src c) offt (len bs)
+             then "ok" else "DIFF" in
+           (* C10_timestamp_wrong_size_rejected: the exact Len error *)
+           let ts =
+             match c.c_transport with
+             | TrIcmpv4 t when (not is_arp) && (not (is_fragmented_x c)) && not (icmp4_admits t plen) ->
+               if w = cut (n_of_int 20) (N.add (icmp4_type_header_len t) plen) (ip_len_src c) (ts_layer t) offt
+               then "ok" else "DIFF"
+             | _ -> "-" in
+           (* C10_icmp4_value_back / C10_icmp6_value_back: the C08 decoder model on the transport
+              segment returns the configured type and the payload *)
+           let dec =
+             if is_arp then "-" else
+             match c.c_transport with
+             | TrIcmpv4 t when wf_icmp4_type t && (int_of_n (icmp4_type_header_len t) = 8 || payload = []) ->
+               (match icmp4_from_slice seg with
+                | Ok (h, rest) when h.icmp4_type = t && rest = payload -> "ok"
+                | _ -> "DIFF")
+             | TrIcmpv6 t when wf_icmp6_type t ->
+               (match icmp6_from_slice seg with
+                | Ok (h, rest) when h.icmp6_type = t && rest = payload -> "ok"
+                | _ -> "DIFF")
+             | _ -> "-" in
+           Printf.sprintf "wire=%s exp=%s upto=%s ts=%s dec=%s" (us (vres w))
              (* C10_parse_back: every admitted payload, extension headers included; without
                 extension headers expected_x = expected (C10_parse_back_no_exts) *)
              (if payload_admitted c plen then
                 (if parse_pre c plen && vpacket_s (expected c plen) <> vpacket_s (expected_x c plen)
                  then "EXPECTED-DIFFER" else us (vpacket_s (expected_x c plen)))
-              else "-")
+              else "-") upto ts dec
          | _ -> "-" in
        m ^ " | " ^ spec
      with Unmodelled -> "unmodelled | -")
